@@ -103,12 +103,15 @@ BlockOK(tr, i, j) ==
 
 ParFoldWF(tr) == BlockOK(tr, 1, Len(tr) + 1)
 
-\* every fold iteration points to an earlier stream value entry
+\* every fold iteration points to an earlier stream value entry: earlier than the iteration's own
+\* entries (with a recursive stream the value may have been produced inside the same fold, i.e. after
+\* the fold entry itself, but always before the iteration that consumes it)
 LoreTargetsWF(tr) ==
     \A i \in Indices(tr) : tr[i].k = "fold" =>
         \A j \in 1..Len(tr[i].lore) :
-            LET vp == tr[i].lore[j].vp IN
-            /\ vp >= 0 /\ vp + 1 < i
+            LET vp == tr[i].lore[j].vp  d == tr[i].lore[j].d IN
+            /\ vp >= 0 /\ vp < Len(tr) /\ vp + 1 # i
+            /\ \A m \in 1..Len(d) : vp < d[m][1]
             /\ LET t == tr[vp + 1] IN t.k = "ap" \/ (t.k = "exec" /\ t.vt = "stream")
 
 \* every stream value entry carries a real generation
